@@ -14,7 +14,7 @@ class SramWorld(World):
     stub_components = ("Wishbone requester (seeded byzantine agent)",)
     fault_kinds = ("stb_held_through_ack", "cyc_alone", "stb_alone", "request_changes_in_ack_cycle",
                    "partial_select", "zero_select", "write_to_read_only",
-                   "init_is_one_shot_iterable", "init_reassigned")
+                   "init_is_one_shot_iterable", "init_reassigned", "init_patched_in_place")
     assumptions = (
         "Amaranth's Python RTL simulator executes the elaborated netlist (including its memory "
         "primitive) faithfully",
@@ -36,6 +36,8 @@ class SramWorld(World):
         if rng.chance(0.15):
             # the image is replaced through the `init` attribute before the design is elaborated
             cfg["reinit"] = [rng.bits(dw) for _ in range(rng.range(0, depth))]
+        if rng.chance(0.15):
+            cfg["patch"] = [[rng.below(depth), rng.bits(dw)] for _ in range(rng.range(1, 3))]
         return cfg
 
     def gen_ops(self, rng, config, prop):
@@ -65,6 +67,7 @@ class SramWorld(World):
         from amaranth_soc.wishbone.sram import WishboneSRAM
         dw, g, size, wr = config["dw"], config["g"], config["size"], bool(config["writable"])
         image = list(config["init"])
+        depth_cfg = max(0, size * g // dw)
         how = config.get("init_as", "list")
         arg = {"list": lambda: list(image), "tuple": lambda: tuple(image),
                "iter": lambda: iter(list(image)), "gen": lambda: (v for v in image)}[how]()
@@ -84,6 +87,13 @@ class SramWorld(World):
                 from simkit.core import Refused
                 raise Refused(f"init setter: {e}")
             stats.fault("init_reassigned")
+        for k_, v_ in (config.get("patch") or []):
+            if depth_cfg:
+                k_ %= depth_cfg
+                dut.init[k_] = v_ & ((1 << dw) - 1)      # item assignment on the reported image
+                image += [0] * (k_ + 1 - len(image))
+                image[k_] = v_ & ((1 << dw) - 1)
+                stats.fault("init_patched_in_place")
         wb = dut.wb_bus
         depth = size * g // dw
         nsel = dw // g
